@@ -8,7 +8,7 @@ Model of PrimAITE's observation layer (game/agent/observations/*.py, game/agent/
   (`nmne_*_last_step`, `cached_obs`), with three functions each, written side by side like the source:
   `…Val` = value returned by `observe(state)`, `…Next` = the object after that call, `…Space` = `space`,
   `…Default` = `default_observation`.
-* Where Python raises (KeyError on a missing ACL slot, on a missing user-session
+* Where Python raises (KeyError on a missing user-session
   entry, ZeroDivisionError on speed 0) the value is `Val.raised`, which no space contains.
 
 Core Lean only.
@@ -531,7 +531,7 @@ def getId {α} [DecidableEq α] (l : List α) : Option α → Val
     | none => .int 1
 
 def AclObs.ruleVal (o : AclObs) (i : Nat) : Option (Option RuleState) → Val
-  | none => .raised                       -- `acl_items[i]` KeyError
+  | none => aclEmptyRule i                -- `acl_items.get(i)`: a position beyond the ACL's slots reads as an empty slot (F-6 repaired)
   | some none => aclEmptyRule i
   | some (some r) =>
     .dict (aclRuleDict (.int i) (.int r.action) (getId o.ips r.srcIp) (getId o.wcs r.srcWc) (getId o.ports r.srcPort)
